@@ -172,6 +172,22 @@ def regen_tables():
     rc, out = sh([sys.executable, os.path.join(VERIF, "tools", "extract_tables.py")])
     return rc == 0, out.strip()
 
+def regen_fns():
+    """run the function translator (Rust bodies -> lean/JL/Generated/Fns.lean); returns (ok, message, status per function)"""
+    lk = _lock()
+    try:
+        sh(["lake", "build", "JL.Rs"], cwd=LEAN, timeout=3600)
+        rc, out = sh([sys.executable, os.path.join(VERIF, "tools", "rs2lean.py")], timeout=3600)
+        st = {}
+        try:
+            st = json.load(open(os.path.join(LEAN, "JL", "Generated", "fns_status.json")))
+        except Exception:
+            pass
+    finally:
+        lk.close()
+    return rc == 0 and bool(st), out.strip(), st
+
+
 def lake_build(targets):
     lk = _lock()
     try:
